@@ -125,7 +125,7 @@ func (c *Connection) healthCheck(connID uint32) {
 		}
 
 		ctx, cancel := context.WithTimeout(c.healthCheckCtx, opts.Timeout)
-		err := c.ping(ctx)
+		err := c.healthCheckPing(ctx)
 		cancel()
 		c.healthCheckHistory.add(err == nil)
 		if err == nil {
